@@ -342,3 +342,31 @@ EXTRA_RULES = {
 }
 for _p, _t in EXTRA_RULES.items():
     PROPS[_p]["rule"] = PROPS[_p]["rule"] + " " + _t
+
+# legs and theorems added in build round 6 (DESIGN sections 11, 13 and 19)
+ROUND6_RULES = {
+    "C04": "A third of the healthy clusters run on a node-aware transport that routes by the name in the address.",
+    "C05": "Half of the crashes of the fault phase are frozen processes (socket open, nothing answers); (cursor) the probe schedule tick by tick, with suspected members, against the cursor model.",
+    "C06": "(probe) real probe rounds against silent, late and answering peers: who signs the suspicion queued on the node's own evidence; a third of the timer histories contain suspicion - refutation - new suspicion - expiry of the first timer.",
+    "C07": "(stir) gossip / push-pull / probe ticks at once: every member listed exactly once afterwards.",
+    "C09": "(auth) joins between a keyed host (label, inbound check checked or delegated) and a joiner with the same or another key and label, against sealedStreamAdmitted; (hist) timer histories with the stale-timer chain.",
+    "C12": "(pkt) a real sender packs membership and user queues (also hundreds of 0-2 byte parts) through gossip() or sendMsg(), a real receiver unpacks; (aliveport) alive messages with ports 0 / own / foreign through the real handleAlive on receivers speaking protocol versions 1-5, against alivePort.",
+    "C13": "A third of the stream-campaign receivers have no Delegate; the complete stream is fed as well.",
+    "C14": "(fbping) the reply of the stream fallback ping, as initiator: sealed under the same or another key and label, unsealed, or with a foreign number.",
+    "C17": "Half of the node-level rotation runs exchange 70 kB incompressible stream messages.",
+    "C19": "(dupack) duplicates of an acknowledgement while the first one's handler runs.",
+    "C20": "(probe) the probe rounds of C19: a round never outlasts its deadline; (sel) the selection and reaping legs of C03.",
+}
+for _p, _t in ROUND6_RULES.items():
+    PROPS[_p]["rule"] = PROPS[_p]["rule"] + " " + _t
+ROUND6_LEVEL = {
+    "C06": " Regenerated: NumMembers() = len(Members()) as the two functions are written now (C07_numMembers_is_length_of_members).",
+    "C07": " Regenerated (GenTie/Lists): Members(), NumMembers() and anyAlive() translated from the source and proved equal to the model's filter / count / existence test; NumMembers() = len(Members()); the loops hold the read lock until they return.",
+    "C09": " C14_sealed_stream_needs_own_label / C09_honest_sender_admitted_iff: a sealed stream is admitted only under an installed key with the receiver's own label as associated data, also when the inbound check is delegated.",
+    "C12": " C12_alive_port_recovered / C12_alive_port_same_rule_as_stream: the port of an alive message is recovered unchanged from protocol version 2 on.",
+    "C18": " Regenerated (GenTie/Lists): Config.IPAllowed / IPMustBeChecked translated from the source and proved equal to the allow-list verdict of the model (no list admits everything, a list admits exactly what one of its networks contains).",
+    "C20": " C20_reset_keeps_own: the node's own record survives every reaping pass (model of resetNodes over the exact moveDeadNodes loop); the loops behind the query API hold the read lock until they return (regenerated).",
+    "C05": " The probe schedule keeps visiting suspected members (cursor model, C03 theorems).",
+}
+for _p, _t in ROUND6_LEVEL.items():
+    PROPS[_p]["level_text"] = PROPS[_p]["level_text"] + _t
